@@ -1204,6 +1204,13 @@ def run_upb_fixed(ctx, numqi, drv):
                np.array([1.0, 2.0, 3.0, 4.0, 5.0, 6.0]), np.array([0.3, 2.8, np.pi / 2, 3.5, 6.0, 3 * np.pi / 2]), [1.0, 2.0, 0.5, 4.0, 5.0, 0.25]]
     for p in special:
         upb_case(ctx, numqi, drv, 'sixparam', p, 50)
+    # numerical regime: gamma/theta close to (but, by more than the documented 1e-10, not at) a multiple of pi/2, where the
+    # normalisation constants NA/NB become tiny: the vectors must still be unit and the set orthonormal
+    for eps in (1e-3, 1e-5, 1e-7, 1e-9):
+        for base in (np.pi / 2, 3 * np.pi / 2):
+            upb_case(ctx, numqi, drv, 'sixparam', np.array([base - eps, base - 2 * eps, 0.3, 0.7, 0.9, 1.1]), 5)
+            upb_case(ctx, numqi, drv, 'sixparam', np.array([0.7, 0.9, 1.1, base + eps, base - 3 * eps, 0.3]), 5)
+        upb_case(ctx, numqi, drv, 'sixparam', np.array([np.pi / 2 - eps, 3 * np.pi / 2 + eps, 2.0, np.pi / 2 + 2 * eps, np.pi / 2 + eps, 4.0]), 5)
     drv.call('load_upb', E.load_upb, 'sixparam')  # documented: random parameters when args is None
     drv.call('load_upb', E.load_upb, 'sixparam', None, return_bes=True)
     ctx.workload('random')
